@@ -67,6 +67,8 @@ def experiment_frame_spec(draw, purpose):
       'missing_row': draw(st.integers(0, 200)) if (purpose == 'c19' and draw(st.integers(0, 3)) == 0) else None,
   }
   if purpose == 'c19':
+    # excluded geos with a longer history than the assigned ones: days on which neither group has a row
+    spec['un_hist'] = draw(st.sampled_from([0, 0, 3, 7]))
     spec['outlier'] = ({'pos': draw(st.integers(0, N - 1)), 'amount': draw(st.sampled_from([50, 200, 500])),
                         'geo': draw(st.integers(0, len(geos) - 1))} if draw(st.booleans()) else None)
   # names / labels
@@ -90,7 +92,7 @@ def experiment_frame_spec(draw, purpose):
     if purpose == 'c19' and draw(st.booleans()):
       names['key_geo'] = draw(st.sampled_from(['region', 'dma']))
     if draw(st.booleans()):
-      labels.update({'period_pre': 5, 'period_test': 6, 'period_cooldown': 9})
+      labels.update(draw(st.sampled_from([{'period_pre': 5, 'period_test': 6, 'period_cooldown': 9}, {'period_pre': 7, 'period_test': 0, 'period_cooldown': 1}])))
   spec['names'] = names
   spec['labels'] = labels
   # cost
@@ -243,6 +245,15 @@ def materialise(spec, drop_unassigned=False, permute=True, split_first_treatment
         if has_cost:
           cols[names['key_cost']].append(float(cc[d]))
       geo_rows.append((name, g['g']))
+      if spec.get('un_hist') and g['g'] == 'u' and not drop_unassigned:
+        for k in range(1, spec['un_hist'] + 1):
+          cols[names['key_date']].append(dates[0] - pd.Timedelta(days=k))
+          cols[names['key_geo']].append(name)
+          cols[names['key_group']].append(glabel)
+          cols[names['key_period']].append(plabel['pre'])
+          cols[names['key_response']].append(float(vv[0]) + k)
+          if has_cost:
+            cols[names['key_cost']].append(0.0)
   df = pd.DataFrame(cols)
   if spec.get('int_values'):
     # integer-typed measurements (whole units; the arrays were floored before the totals were accumulated)
@@ -277,3 +288,14 @@ def masks(truth, use_cooldown=True):
   pre = sem == 'pre'
   an = (sem == 'test') | ((sem == 'cool') if use_cooldown else np.zeros(len(sem), bool))
   return pre, an
+
+
+def scribble(df, names):
+  """The caller goes on working with the frame it passed to fit(): metric columns converted to another unit on the same
+  DataFrame object, two rows dropped in place. A fitted model must not be affected (it analysed the frame it was given)."""
+  for k in ('key_response', 'key_cost'):
+    c = names.get(k)
+    if c in df.columns:
+      df[c] = df[c] * 1000
+  if len(df) > 4:
+    df.drop(index=df.index[:2], inplace=True)
